@@ -77,5 +77,43 @@ func TestC20Regression(t *testing.T) {
 	if len(r4.Duties) != 3 {
 		t.Fatalf("WRONG ANSWER: proposer duties for [10 11] from the cache: %s", js(r4.Duties))
 	}
+	// (4) fixed fb98e25: an answer that was on its way back while a reorg invalidated the cache was cached afterwards
+	for _, kind := range []string{"attester", "proposer", "sync"} {
+		tables.Att[1] = map[eth2p0.ValidatorIndex]eth2v1.AttesterDuty{10: {PubKey: pubkeyOf(10), Slot: 9, ValidatorIndex: 10, CommitteeLength: 8, CommitteesAtSlot: 4}}
+		tables.Pro[1] = []eth2v1.ProposerDuty{{PubKey: pubkeyOf(10), Slot: 9, ValidatorIndex: 10}}
+		tables.Sync[1] = map[eth2p0.ValidatorIndex]eth2v1.SyncCommitteeDuty{10: {PubKey: pubkeyOf(10), ValidatorIndex: 10, ValidatorSyncCommitteeIndices: []eth2p0.CommitteeIndex{3}}}
+		cache = eth2wrap.NewDutiesCache(bn, append([]eth2p0.ValidatorIndex{}, all...))
+		ask := func() (string, error) {
+			switch kind {
+			case "attester":
+				r, err := cache.AttesterDutiesCache(ctx, 1, []eth2p0.ValidatorIndex{10})
+				return js(r.Duties), err
+			case "proposer":
+				r, err := cache.ProposerDutiesCache(ctx, 1, []eth2p0.ValidatorIndex{10})
+				return js(r.Duties), err
+			}
+			r, err := cache.SyncCommDutiesCache(ctx, 1, []eth2p0.ValidatorIndex{10})
+			return js(r.Duties), err
+		}
+		bn.AfterAnswer = func(string, eth2p0.Epoch) {
+			bn.AfterAnswer = nil
+			// the chain reorgs back to epoch 0: validator 10 loses its epoch 1 duties, 11 gets them
+			tables.Att[1] = map[eth2p0.ValidatorIndex]eth2v1.AttesterDuty{11: {PubKey: pubkeyOf(11), Slot: 10, ValidatorIndex: 11, CommitteeLength: 8, CommitteesAtSlot: 4}}
+			tables.Pro[1] = []eth2v1.ProposerDuty{{PubKey: pubkeyOf(11), Slot: 10, ValidatorIndex: 11}}
+			tables.Sync[1] = map[eth2p0.ValidatorIndex]eth2v1.SyncCommitteeDuty{11: {PubKey: pubkeyOf(11), ValidatorIndex: 11, ValidatorSyncCommitteeIndices: []eth2p0.CommitteeIndex{4}}}
+			cache.InvalidateCache(ctx, 0)
+		}
+		if _, err := ask(); err != nil {
+			t.Fatal(err)
+		}
+		calls := bn.CallCount(kind)
+		later, err := ask()
+		if err != nil {
+			t.Fatal(err)
+		}
+		if bn.CallCount(kind) == calls || (later != "[]" && later != "null") {
+			t.Fatalf("STALE: %s duties of epoch 1 were requested, the chain reorged back to epoch 0 while the answer was on its way (cache invalidated), and the next request was answered %s with %d beacon calls; the beacon node now reports no duty for validator 10", kind, later, bn.CallCount(kind)-calls)
+		}
+	}
 	vstat.Case("regression-c20", true, "regression")
 }
